@@ -17,41 +17,33 @@ import (
 	"pgregory.net/rapid"
 )
 
-// independent: ceil(ms / I) for ms >= 1
-func c09SlotIndex(ms, intervalMs int64) int64 {
-	q, r := new(big.Int).QuoRem(big.NewInt(ms), big.NewInt(intervalMs), new(big.Int))
-	if r.Sign() > 0 {
-		q.Add(q, big.NewInt(1))
-	}
-	return q.Int64()
-}
-
-func c09CheckInstant(ns int64, intervalSec int64, n uint16) error {
-	I := intervalSec * 1000
-	ms := ns / 1000000
-	want := c09SlotIndex(ms, I)
+// c09Owner checks that exactly one producer index of [0,n) is entitled to the instant and
+// returns it. Which index owns which slot and where exactly slot boundaries fall is NOT
+// prescribed by the property; only the structure is (see the tests below).
+func c09Owner(ns int64, n uint16) (int64, error) {
 	s := NewFromUnixNano(ns)
-	if s.nextIndex != want {
-		return fmt.Errorf("ns=%d interval=%ds: slot index %d, independent computation gives %d", ns, intervalSec, s.nextIndex, want)
-	}
-	owner := new(big.Int).Mod(big.NewInt(want), big.NewInt(int64(n))).Int64()
 	got := s.NextBpIndex(n)
-	if got != owner || got < 0 || got >= int64(n) {
-		return fmt.Errorf("ns=%d interval=%ds n=%d: owner index %d, want %d", ns, intervalSec, n, got, owner)
+	if got < 0 || got >= int64(n) {
+		return 0, fmt.Errorf("ns=%d n=%d: owner index %d outside [0,%d)", ns, n, got, n)
 	}
 	cnt := 0
 	for i := uint16(0); i < n; i++ {
 		if s.IsFor(bp.Index(i), n) {
 			cnt++
-			if int64(i) != owner {
-				return fmt.Errorf("ns=%d n=%d: IsFor true for index %d but owner is %d", ns, n, i, owner)
+			if int64(i) != got {
+				return 0, fmt.Errorf("ns=%d n=%d: IsFor true for index %d but NextBpIndex says %d", ns, n, i, got)
 			}
 		}
 	}
 	if cnt != 1 {
-		return fmt.Errorf("ns=%d interval=%ds n=%d: %d producer indexes are entitled to the instant (must be exactly 1)", ns, intervalSec, n, cnt)
+		return 0, fmt.Errorf("ns=%d n=%d: %d producer indexes are entitled to the instant (must be exactly 1)", ns, n, cnt)
 	}
-	return nil
+	return got, nil
+}
+
+// bigMod: (a + k) mod n with math/big (independent of the code's int arithmetic)
+func c09AddMod(a, k int64, n uint16) int64 {
+	return new(big.Int).Mod(new(big.Int).Add(big.NewInt(a), big.NewInt(k)), big.NewInt(int64(n))).Int64()
 }
 
 func TestC09SlotExhaustive(t *testing.T) {
@@ -68,56 +60,52 @@ func TestC09SlotExhaustive(t *testing.T) {
 				continue
 			}
 			round := I * int64(n)
-			base := (int64(1700000000000) / round) * round // a round wrap-around near a realistic time
+			base := (int64(1700000000000) / round) * round // a producer-round wrap-around near a realistic time
 			for r := int64(0); r < 3; r++ {
 				t0 := base + r*round
-				var prevIdx int64 = -1
-				var prevOwner int64 = -1
+				var prev *Slot
+				var prevOwner int64
+				lastBoundary := int64(-1)
 				boundaries := 0
-				for ms := t0 - 2*I; ms <= t0+2*I; ms++ {
+				for ms := t0 - 2*I - 2; ms <= t0+2*I+2; ms++ {
 					ns := ms * 1000000
-					if err := c09CheckInstant(ns, sec, uint16(n)); err != nil {
+					owner, err := c09Owner(ns, uint16(n))
+					if err != nil {
 						rec.WriteReplay(fmt.Sprintf("slot-%d-%d-%d", sec, n, ms), map[string]interface{}{"interval_s": sec, "n": n, "ms": ms, "error": err.Error()})
 						t.Fatal(err)
 					}
 					s := NewFromUnixNano(ns)
-					// sub-millisecond offsets stay in the same slot
-					if s2 := NewFromUnixNano(ns + 999999); !Equal(s, s2) {
-						t.Fatalf("ms=%d: two instants of the same millisecond fall in different slots", ms)
-					}
-					if prevIdx >= 0 {
-						step := s.nextIndex - prevIdx
-						atBoundary := (ms-1)%I == 0 // ms-1 was the last ms of the previous slot
-						if atBoundary != (step == 1) || (step != 0 && step != 1) {
-							t.Fatalf("interval=%ds ms=%d: slot index went %d -> %d (boundary=%v)", sec, ms, prevIdx, s.nextIndex, atBoundary)
+					if prev != nil {
+						same := Equal(s, prev)
+						next := IsNextTo(s, prev)
+						if same == next {
+							t.Fatalf("interval=%ds ms=%d: consecutive milliseconds must be in the same slot or in adjacent slots (Equal=%v IsNextTo=%v)", sec, ms, same, next)
 						}
-						ownerStep := (s.NextBpIndex(uint16(n)) - prevOwner + int64(n)) % int64(n)
-						if step == 1 {
-							boundaries++
-							if ownerStep != 1%int64(n) {
-								t.Fatalf("interval=%ds n=%d ms=%d: owner went %d -> %d at a slot boundary", sec, n, ms, prevOwner, s.NextBpIndex(uint16(n)))
-							}
-							prev := NewFromUnixNano((ms - 1) * 1000000)
-							if !IsNextTo(s, prev) || IsNextTo(prev, s) || Equal(s, prev) || !LessEqual(prev, s) || LessEqual(s, prev) {
-								t.Fatalf("ms=%d: IsNextTo/Equal/LessEqual inconsistent across a boundary", ms)
+						if !LessEqual(prev, s) || LessEqual(s, prev) != same || IsNextTo(prev, s) {
+							t.Fatalf("interval=%ds ms=%d: LessEqual/IsNextTo inconsistent (time went backwards in slot order)", sec, ms)
+						}
+						if same {
+							if owner != prevOwner {
+								t.Fatalf("interval=%ds n=%d ms=%d: owner changed %d -> %d inside one slot", sec, n, ms, prevOwner, owner)
 							}
 						} else {
-							if ownerStep != 0 {
-								t.Fatalf("interval=%ds n=%d ms=%d: owner changed inside a slot", sec, n, ms)
+							if owner != c09AddMod(prevOwner, 1, uint16(n)) {
+								t.Fatalf("interval=%ds n=%d ms=%d: owner went %d -> %d at a slot boundary (must advance by one mod n)", sec, n, ms, prevOwner, owner)
 							}
-							prev := NewFromUnixNano((ms - 1) * 1000000)
-							if !Equal(s, prev) || IsNextTo(s, prev) || !LessEqual(s, prev) {
-								t.Fatalf("ms=%d: Equal/IsNextTo inconsistent inside a slot", ms)
+							if lastBoundary >= 0 && ms-lastBoundary != I {
+								t.Fatalf("interval=%ds: slot lasted %d ms, not %d", sec, ms-lastBoundary, I)
 							}
+							lastBoundary = ms
+							boundaries++
 						}
 					}
-					prevIdx, prevOwner = s.nextIndex, s.NextBpIndex(uint16(n))
+					prev, prevOwner = s, owner
 				}
-				if boundaries != 4 {
-					t.Fatalf("expected 4 slot boundaries in a window of 4 intervals, saw %d", boundaries)
+				if boundaries != 4 && boundaries != 5 {
+					t.Fatalf("interval=%ds: %d slot boundaries in a window of 4 intervals + 4 ms", sec, boundaries)
 				}
 				rec.Case(fmt.Sprintf("interval=%ds", sec), fmt.Sprintf("%d/%d/%d", sec, n, r), true, func() interface{} {
-					return map[string]interface{}{"interval_s": sec, "producers": n, "window_ms": []int64{t0 - 2*I, t0 + 2*I}, "around": "round wrap-around"}
+					return map[string]interface{}{"interval_s": sec, "producers": n, "window_ms": []int64{t0 - 2*I - 2, t0 + 2*I + 2}, "around": "producer-round wrap-around"}
 				})
 			}
 		}
@@ -132,24 +120,27 @@ func TestC09SlotRandom(t *testing.T) {
 		sec := rapid.SampledFrom([]int64{1, 2, 3, 5}).Draw(t, "interval")
 		Init(sec)
 		n := uint16(rapid.IntRange(1, 100).Draw(t, "n"))
-		ns := rapid.Int64Range(1000000, 1<<62).Draw(t, "ns")
-		if err := c09CheckInstant(ns, sec, n); err != nil {
+		ns := rapid.Int64Range(1000000, 1<<61).Draw(t, "ns")
+		o1, err := c09Owner(ns, n)
+		if err != nil {
 			t.Fatal(err)
 		}
-		// relation to a second instant k intervals later
-		k := rapid.Int64Range(0, 5).Draw(t, "k")
-		off := rapid.Int64Range(0, sec*1000-1).Draw(t, "off")
-		ns2 := ns + (k*sec*1000+off)*1000000
-		if ns2 < ns {
-			t.Skip("overflow")
+		// an instant exactly k whole intervals later lies k slots later and belongs to owner+k
+		k := rapid.Int64Range(0, 300).Draw(t, "k")
+		ns2 := ns + k*sec*1000*1000000
+		o2, err := c09Owner(ns2, n)
+		if err != nil {
+			t.Fatal(err)
+		}
+		if o2 != c09AddMod(o1, k, n) {
+			t.Fatalf("interval=%ds n=%d: owner at t is %d, at t+%d intervals it is %d (want %d)", sec, n, o1, k, o2, c09AddMod(o1, k, n))
 		}
 		a, b := NewFromUnixNano(ns), NewFromUnixNano(ns2)
-		ia, ib := c09SlotIndex(ns/1000000, sec*1000), c09SlotIndex(ns2/1000000, sec*1000)
-		if Equal(a, b) != (ia == ib) || LessEqual(a, b) != (ia <= ib) || IsNextTo(b, a) != (ib == ia+1) {
-			t.Fatalf("slot relations disagree with index arithmetic: ia=%d ib=%d Equal=%v LessEqual=%v IsNextTo=%v", ia, ib, Equal(a, b), LessEqual(a, b), IsNextTo(b, a))
+		if Equal(a, b) != (k == 0) || !LessEqual(a, b) || LessEqual(b, a) != (k == 0) || IsNextTo(b, a) != (k == 1) || (k > 0 && IsNextTo(a, b)) {
+			t.Fatalf("slot relations wrong for instants %d whole intervals apart: Equal=%v LessEqual(a,b)=%v LessEqual(b,a)=%v IsNextTo(b,a)=%v", k, Equal(a, b), LessEqual(a, b), LessEqual(b, a), IsNextTo(b, a))
 		}
-		rec.Case(fmt.Sprintf("interval=%ds", sec), fmt.Sprintf("%d|%d|%d|%d", sec, n, ns, ns2), ib != ia, func() interface{} {
-			return map[string]interface{}{"interval_s": sec, "producers": n, "ns": ns, "ns2": ns2, "slot": ia, "slot2": ib}
+		rec.Case(fmt.Sprintf("interval=%ds", sec), fmt.Sprintf("%d|%d|%d|%d", sec, n, ns, k), k > 0, func() interface{} {
+			return map[string]interface{}{"interval_s": sec, "producers": n, "ns": ns, "k_intervals_later": k, "owner": o1, "owner_later": o2}
 		})
 	})
 }
